@@ -1,12 +1,379 @@
-//! C07 (placeholder, filled in later)
+//! C07: opening / reading damaged database files never crashes the process.
+//!
+//! op line:  `open <variant> <data hex> <wal hex>`   variant = file | mmap | memory
+//! output:   `ok:<read>` | `err` | `panic:<site>` | `hugealloc:<site>` | `timeout`
+//!           where <read> = `ok` | `err` | `panic:<site>` | `hugealloc:<site>` (full read of the opened db)
+
 use crate::Out;
 use crate::crash::Reopener;
+use crate::crash::gen_history;
+use crate::dump::dump;
+use crate::guard::Bad;
+use crate::queries::Step;
+use crate::queries::hex;
+use crate::queries::unhex;
 use crate::rng::Rng;
+use crate::store::CTL;
+use crate::store::CrashStorage;
+use crate::store::Fault;
+use crate::store::wal_name;
+use agdb::Db;
+use agdb::DbFile;
+use agdb::DbImpl;
+use agdb::DbMemory;
+use std::time::Duration;
 
-pub fn run_case(out: &mut Out, _ro: &mut Reopener, _case: u64, lines: &[String]) {
-    for l in lines {
-        out.emit(l, "bad-op", None);
+fn open_and_read(ro: &mut Reopener, variant: &str, data: &[u8], wal: &[u8]) -> String {
+    ro.counter += 1;
+    let path = format!("{}/d{}.agdb", ro.dir, ro.counter);
+    let wal_path = wal_name(&path);
+    std::fs::write(&path, data).expect("write mutant");
+    if !wal.is_empty() {
+        std::fs::write(&wal_path, wal).expect("write mutant wal");
+    }
+    let p = path.clone();
+    let v = variant.to_string();
+    let secs = std::env::var("VERIF_OPEN_TIMEOUT").ok().and_then(|s| s.parse().ok()).unwrap_or(20);
+    let r = ro.worker.run(Duration::from_secs(secs), move || -> Result<(), ()> {
+        match v.as_str() {
+            "file" => DbFile::new(&p).map(|_| ()).map_err(|_| ()),
+            "mmap" => Db::new(&p).map(|_| ()).map_err(|_| ()),
+            _ => DbMemory::new(&p).map(|_| ()).map_err(|_| ()),
+        }
+    });
+    // the open result first (the db is dropped = defragmented), then a second open for the full read
+    let line = match r {
+        Err(b) => b.line(),
+        Ok(Err(())) => "err".to_string(),
+        Ok(Ok(())) => {
+            // restore the mutant (the first open may have rewritten the file on drop)
+            std::fs::write(&path, data).expect("write mutant");
+            if !wal.is_empty() {
+                std::fs::write(&wal_path, wal).expect("write mutant wal");
+            } else {
+                let _ = std::fs::remove_file(&wal_path);
+            }
+            let p = path.clone();
+            let v = variant.to_string();
+            let r2 = ro.worker.run(Duration::from_secs(10), move || -> Option<Vec<String>> {
+                match v.as_str() {
+                    "file" => DbFile::new(&p).ok().map(|db| dump(&db, true).0.read_errors),
+                    "mmap" => Db::new(&p).ok().map(|db| dump(&db, true).0.read_errors),
+                    _ => DbMemory::new(&p).ok().map(|db| dump(&db, true).0.read_errors),
+                }
+            });
+            match r2 {
+                Err(b) => format!("ok:{}", b.line()),
+                Ok(None) => "ok:reopen-err".to_string(),
+                Ok(Some(errs)) => {
+                    if let Some(b) = errs.iter().find(|e| e.starts_with("panic:") || e.starts_with("hugealloc:") || *e == "timeout") {
+                        format!("ok:{b}")
+                    } else if errs.is_empty() {
+                        "ok:ok".to_string()
+                    } else {
+                        "ok:err".to_string()
+                    }
+                }
+            }
+        }
+    };
+    let _ = std::fs::remove_file(&path);
+    let _ = std::fs::remove_file(&wal_path);
+    line
+}
+
+fn bad_of(line: &str) -> Option<(String, String)> {
+    let l = line.strip_prefix("ok:").unwrap_or(line);
+    if let Some(s) = l.strip_prefix("panic:") {
+        Some(("panic".to_string(), s.to_string()))
+    } else if let Some(s) = l.strip_prefix("hugealloc:") {
+        Some(("hugealloc".to_string(), s.to_string()))
+    } else if l == "timeout" {
+        Some(("timeout".to_string(), "open-path".to_string()))
+    } else {
+        None
     }
 }
 
-pub fn generate(_out: &mut Out, _rng: &mut Rng, _case_no: &mut u64, _n: u64, _tmp: &str) {}
+pub fn run_case(out: &mut Out, ro: &mut Reopener, case: u64, lines: &[String]) {
+    let mut text = String::new();
+    let mut nontrivial = false;
+    for l in lines {
+        let line = out.ops.len();
+        let toks: Vec<&str> = l.split(' ').collect();
+        if toks.len() != 4 || toks[0] != "open" || !["file", "mmap", "memory"].contains(&toks[1]) {
+            out.emit(l, "bad-op", None);
+            continue;
+        }
+        let (Some(data), Some(wal)) = (unhex(toks[2]), unhex(toks[3])) else {
+            out.emit(l, "bad-op", None);
+            continue;
+        };
+        let res = open_and_read(ro, toks[1], &data, &wal);
+        out.evaluations += 1;
+        out.hist(&format!("variant_{}", toks[1]));
+        let class = res.split(':').take(2).collect::<Vec<_>>().join(":");
+        out.hist(&format!("outcome_{}", if class.len() > 40 { &class[..40] } else { &class }));
+        if let Some((kind, site)) = bad_of(&res) {
+            let phase = if res.starts_with("ok:") { "read" } else { "open" };
+            out.violation(
+                case,
+                line,
+                &format!("C07/{kind}/{site}"),
+                "opening/reading a damaged file must return a result or an error",
+                "ok or err",
+                &format!("{phase}: {res} (variant {}, {} data bytes, {} log bytes)", toks[1], data.len(), wal.len()),
+            );
+        }
+        text.push_str(&format!("{} {} {}\n", toks[1], crate::dump::fnv(&data), crate::dump::fnv(&wal)));
+        nontrivial = true;
+        out.emit(l, &res, None);
+    }
+    let _ = Bad::Timeout;
+    out.case_done(&text, nontrivial);
+}
+
+/// Valid base images: (data, wal) pairs — closed files and mid-transaction snapshots.
+fn base_images(rng: &mut Rng, tmp: &str, n: usize) -> Vec<(Vec<u8>, Vec<u8>)> {
+    let mut bases = vec![];
+    for _ in 0..n {
+        let steps = gen_history(rng, tmp, 7);
+        let path = format!("{tmp}/base.agdb");
+        let _ = std::fs::remove_file(&path);
+        let _ = std::fs::remove_file(wal_name(&path));
+        CTL.with(|c| {
+            let mut c = c.borrow_mut();
+            c.path = path.clone();
+            c.recording = false;
+            c.fault = Fault::None;
+        });
+        let mut mid: Option<(Vec<u8>, Vec<u8>)> = None;
+        {
+            let Ok(mut db) = DbImpl::<CrashStorage>::new(&path) else { continue };
+            let last = steps.len().saturating_sub(1);
+            for (i, l) in steps.iter().enumerate() {
+                let Some(step) = Step::parse(l) else { continue };
+                if i == last {
+                    CTL.with(|c| c.borrow_mut().start());
+                }
+                let _ = crate::guard::guarded(|| {
+                    let _ = step.run(&mut db);
+                });
+                if i == last {
+                    CTL.with(|c| c.borrow_mut().stop());
+                    // a snapshot from the middle of the last step: data + non-empty log
+                    let snaps = CTL.with(|c| c.borrow().snaps.clone());
+                    if snaps.len() > 2 {
+                        let s = &snaps[snaps.len() / 2];
+                        mid = Some((s.data.clone(), s.wal.clone()));
+                    }
+                }
+            }
+        }
+        let data = std::fs::read(&path).unwrap_or_default();
+        if !data.is_empty() && data.len() < 6000 {
+            bases.push((data, vec![]));
+        }
+        if let Some((d, w)) = mid
+            && d.len() < 6000
+            && w.len() < 6000
+        {
+            bases.push((d, w));
+        }
+        let _ = std::fs::remove_file(&path);
+        let _ = std::fs::remove_file(wal_name(&path));
+    }
+    bases
+}
+
+const INTERESTING: [u64; 14] = [
+    0,
+    1,
+    2,
+    7,
+    16,
+    24,
+    0xFFFF,
+    1 << 32,
+    1 << 40,
+    1 << 62,
+    (1 << 63) - 1,
+    1 << 63,
+    u64::MAX - 15,
+    u64::MAX,
+];
+
+/// offsets of the 16-byte record headers of a valid image
+fn record_offsets(data: &[u8]) -> Vec<usize> {
+    let mut v = vec![];
+    let mut pos = 24usize;
+    while pos + 16 <= data.len() {
+        v.push(pos);
+        let size = u64::from_le_bytes(data[pos + 8..pos + 16].try_into().unwrap());
+        if size > data.len() as u64 {
+            break;
+        }
+        pos += 16 + size as usize;
+    }
+    v
+}
+
+fn mutate(rng: &mut Rng, data: &[u8], wal: &[u8], out: &mut Out) -> (Vec<u8>, Vec<u8>) {
+    let mut d = data.to_vec();
+    let mut w = wal.to_vec();
+    let recs = record_offsets(data);
+    let kind = rng.below(if wal.is_empty() { 9 } else { 13 });
+    match kind {
+        0 => {
+            out.hist("mut_truncate");
+            d.truncate(rng.below(d.len() as u64 + 1) as usize);
+        }
+        1 => {
+            out.hist("mut_truncate_near_record");
+            if let Some(r) = recs.get(rng.below(recs.len() as u64) as usize) {
+                let at = (*r + rng.below(20) as usize).min(d.len());
+                d.truncate(at);
+            }
+        }
+        2 => {
+            out.hist("mut_bitflip_header");
+            let at = if rng.chance(1, 3) || recs.is_empty() {
+                rng.below(24.min(d.len() as u64)) as usize
+            } else {
+                recs[rng.below(recs.len() as u64) as usize] + rng.below(16) as usize
+            };
+            if at < d.len() {
+                d[at] ^= 1 << rng.below(8);
+            }
+        }
+        3 => {
+            out.hist("mut_double_bitflip");
+            for _ in 0..2 {
+                let at = if recs.is_empty() {
+                    rng.below(d.len() as u64) as usize
+                } else {
+                    recs[rng.below(recs.len() as u64) as usize] + rng.below(16) as usize
+                };
+                if at < d.len() {
+                    d[at] ^= 1 << rng.below(8);
+                }
+            }
+        }
+        4 => {
+            out.hist("mut_overwrite_record_size");
+            if !recs.is_empty() {
+                let r = recs[rng.below(recs.len() as u64) as usize];
+                let v = pick_u64(rng, d.len() as u64);
+                if r + 16 <= d.len() {
+                    d[r + 8..r + 16].copy_from_slice(&v.to_le_bytes());
+                }
+            }
+        }
+        5 => {
+            out.hist("mut_overwrite_record_index");
+            if !recs.is_empty() {
+                let r = recs[rng.below(recs.len() as u64) as usize];
+                let v = pick_u64(rng, recs.len() as u64);
+                if r + 8 <= d.len() {
+                    d[r..r + 8].copy_from_slice(&v.to_le_bytes());
+                }
+            }
+        }
+        6 => {
+            out.hist("mut_overwrite_u64_in_value");
+            // overwrite an aligned u64 inside record payloads: lengths, storage indexes, capacities
+            if d.len() > 48 {
+                let at = 40 + 8 * rng.below(((d.len() - 40) / 8) as u64) as usize;
+                let v = pick_u64(rng, d.len() as u64);
+                if at + 8 <= d.len() {
+                    d[at..at + 8].copy_from_slice(&v.to_le_bytes());
+                }
+            }
+        }
+        7 => {
+            out.hist("mut_bitflip_anywhere");
+            if !d.is_empty() {
+                let at = rng.below(d.len() as u64) as usize;
+                d[at] ^= 1 << rng.below(8);
+            }
+        }
+        8 => {
+            out.hist("mut_garbage_log");
+            let n = rng.range(1, 64) as usize;
+            w = (0..n).map(|_| rng.next() as u8).collect();
+            if rng.chance(1, 2) {
+                // a well-formed header with a hostile length
+                let mut g = vec![];
+                g.extend_from_slice(&rng.below(d.len() as u64 + 1).to_le_bytes());
+                g.extend_from_slice(&pick_u64(rng, 64).to_le_bytes());
+                g.extend((0..rng.below(24)).map(|i| i as u8));
+                w = g;
+            }
+        }
+        9 => {
+            out.hist("mut_truncate_log");
+            w.truncate(rng.below(w.len() as u64 + 1) as usize);
+        }
+        10 => {
+            out.hist("mut_log_record_size");
+            if w.len() >= 16 {
+                let v = pick_u64(rng, w.len() as u64);
+                w[8..16].copy_from_slice(&v.to_le_bytes());
+            }
+        }
+        11 => {
+            out.hist("mut_log_record_pos");
+            if w.len() >= 8 {
+                let v = pick_u64(rng, d.len() as u64);
+                w[0..8].copy_from_slice(&v.to_le_bytes());
+            }
+        }
+        _ => {
+            out.hist("mut_log_bitflip");
+            if !w.is_empty() {
+                let at = rng.below(w.len().min(32) as u64) as usize;
+                w[at] ^= 1 << rng.below(8);
+            }
+        }
+    }
+    (d, w)
+}
+
+fn pick_u64(rng: &mut Rng, around: u64) -> u64 {
+    match rng.below(4) {
+        0 => *rng.pick(&INTERESTING),
+        1 => around.wrapping_add(rng.below(40)).wrapping_sub(20),
+        2 => rng.below(64),
+        _ => rng.next(),
+    }
+}
+
+pub fn generate(out: &mut Out, rng: &mut Rng, case_no: &mut u64, n: u64, tmp: &str) {
+    let n_bases = if n > 10_000 { 60 } else { 8 };
+    let bases = base_images(rng, tmp, n_bases);
+    out.hist(&format!("base_images_{}", bases.len()));
+    let per_case = 25;
+    let mut produced = 0;
+    let variants = ["file", "mmap", "memory"];
+    let mut cases = vec![];
+    while produced < n {
+        *case_no += 1;
+        let mut lines = vec![];
+        for _ in 0..per_case {
+            let v = variants[rng.below(3) as usize];
+            let (d, w) = if rng.chance(1, 15) || bases.is_empty() {
+                out.hist("mut_random_file");
+                let len = rng.below(200) as usize;
+                let d: Vec<u8> = (0..len).map(|_| if rng.chance(1, 2) { 0 } else { rng.next() as u8 }).collect();
+                (d, vec![])
+            } else {
+                let (bd, bw) = &bases[rng.below(bases.len() as u64) as usize];
+                mutate(rng, bd, bw, out)
+            };
+            lines.push(format!("open {v} {} {}", hex(&d), hex(&w)));
+            produced += 1;
+        }
+        cases.push((*case_no, lines));
+    }
+    crate::run_cases_parallel(out, tmp, "C07", cases);
+}
